@@ -326,3 +326,106 @@ func orderSuite(name, kind, tier string, crossHand bool) *Suite {
 		}
 	}}
 }
+
+
+// thinkingSuite (C18): a humanized bot is shown a request of a real path and, while its think-time timer may be
+// pending, an older snapshot of the same path (late by 1..4 deliveries; with or without a hand state; of this or
+// the previous hand); then the timers run. A snapshot older than what the bot has seen is stale: for every
+// sequence of the bot's random draws (thinking time, action roulette, amounts) the calls must be exactly those
+// of the same run without the late snapshot.
+func thinkingSuite(name, tier string) *Suite {
+	return &Suite{Name: name, Weight: 5, Direct: func(st *SuiteStats) {
+		paths, fatal := orderPaths(tier)
+		if fatal != "" {
+			st.Fatal = fatal
+			return
+		}
+		st.Outcomes = map[string]int{}
+		viol := map[string]*Violation{}
+		capped := false
+		for pi, path := range paths {
+			ids := map[string]bool{}
+			for _, t := range path {
+				for _, p := range t.State.PlayerStates {
+					ids[p.PlayerID] = true
+				}
+			}
+			var idl []string
+			for id := range ids {
+				idl = append(idl, id)
+			}
+			sort.Strings(idl)
+			for _, id := range idl {
+				for j := 1; j < len(path) && !capped; j++ {
+					if time.Now().After(deadline) {
+						capped = true
+						break
+					}
+					tj := path[j]
+					if tj.State.GameState == nil || tj.State.Status != pt.TableStateStatus_TableGamePlaying {
+						continue
+					}
+					if _, allowed := askedActions(tj, id); len(allowed) == 0 {
+						continue
+					}
+					for d := 1; d <= 4 && j-d >= 0; d++ {
+						i := j - d
+						if g := path[i].State.GameState; g != nil && g.UpdatedAt >= tj.State.GameState.UpdatedAt {
+							continue // not older
+						}
+						run := func(env *vrt.Env, late bool) string {
+							rec := &recEngine{now: env.Now}
+							bot := actor.NewBotRunner(id)
+							bot.Humanized(true)
+							first := deepCopy(path[0])
+							first.Meta.ActionTime = 3
+							a := newActorOn(rec, first, bot)
+							view := deepCopy(tj)
+							view.Meta.ActionTime = 3
+							a.GetTable().UpdateTableState(view)
+							env.Settle()
+							if late {
+								old := deepCopy(path[i])
+								old.Meta.ActionTime = 3
+								a.GetTable().UpdateTableState(old)
+								env.Settle()
+							}
+							for k := 0; k < 6 && env.PendingTimers() > 0; k++ {
+								env.AdvanceTimer()
+								env.Settle()
+							}
+							st.Transitions++
+							var cs []string
+							for _, c := range rec.calls {
+								cs = append(cs, fmt.Sprintf("%s(%s,%d)", c.Kind, c.ID, c.Chips))
+							}
+							return fmt.Sprint(cs)
+						}
+						vrt.Run(vrt.Config{MaxSteps: 200000}, func(env *vrt.Env) {
+							st.Execs += env.ForAllRand(func(draws []int) {
+								with := run(env, true)
+								env.RewindRand()
+								without := run(env, false)
+								st.Outcomes[fmt.Sprintf("late-changes-nothing=%v", with == without)]++
+								if with != without {
+									key := "acts-on-stale-view@late-snapshot-while-thinking"
+									detail := fmt.Sprintf("humanized bot %s, path %d: shown snapshot #%d (%s), then - before its think-time timer was run - the older snapshot #%d (%s); with draws %v it submitted %s, without the late snapshot %s", id, pi, j, describeNode(tj), i, describeNode(path[i]), draws, with, without)
+									if _, ok := viol[key]; !ok && !hitKnown(key, detail) {
+										clause, k := splitKey(key)
+										viol[key] = &Violation{Suite: name, Clause: clause, Key: k, Detail: detail}
+									}
+								}
+							})
+						})
+					}
+				}
+			}
+		}
+		st.Capped = capped
+		st.States = len(st.Outcomes)
+		st.Notes = append(st.Notes, fmt.Sprintf("%s: %d paths, every request x older snapshot late by 1..4 x every draw sequence; %d runs", name, len(paths), st.Execs))
+		for _, v := range viol {
+			st.Violations = append(st.Violations, *v)
+		}
+	}}
+}
